@@ -455,6 +455,46 @@ theorem step_entry (m : Mirp) (fuel : ℕ) (l t c : ℚ) :
       | none => (m, .err .value)
       | some m' => (m', .ok []) := rfl
 
+theorem step_travel (m : Mirp) (fuel : ℕ) (sp u : ℚ) (dist : List (String × String × ℚ))
+    (sf df : List (String × ℚ)) :
+    m.step fuel (.travel sp u dist sf df) =
+      if sp = 0 ∧ m.supply ≠ [] ∧ m.demand ≠ [] then (m, .zerodiv)
+      else (m.addTravelArcs (lookupDist dist) sp u (lookupD sf) (lookupD df), .ok []) := rfl
+
+/-- `add_travel_arcs` with vessel speed 0 and at least one (supply port, demand port) pair raises
+    `ZeroDivisionError` before any arc is added: the state is unchanged -/
+theorem step_travel_zero_speed (fuel : ℕ) (m : Mirp) (u : ℚ) (dist : List (String × String × ℚ))
+    (sf df : List (String × ℚ)) (hs : m.supply ≠ []) (hd : m.demand ≠ []) :
+    m.step fuel (.travel 0 u dist sf df) = (m, .zerodiv) := by
+  rw [step_travel, if_pos ⟨rfl, hs, hd⟩]
+
+/-- a helper call that raises `ZeroDivisionError` leaves the state unchanged -/
+theorem step_zerodiv_state (fuel : ℕ) (m : Mirp) (op : MOp) (h : (m.step fuel op).2 = .zerodiv) :
+    (m.step fuel op).1 = m := by
+  cases op with
+  | port nm i r c =>
+    rw [step_port] at h ⊢
+    by_cases hr : r = 0
+    · simp [hr]
+    · simp only [hr, if_false] at h ⊢
+      cases ha : m.addNodes fuel nm i r c with
+      | none => rfl
+      | some res =>
+        obtain ⟨m', res⟩ := res
+        rw [ha] at h
+        cases res <;> simp at h
+  | travel sp u dist sf df =>
+    rw [step_travel] at h ⊢
+    by_cases hz : sp = 0 ∧ m.supply ≠ [] ∧ m.demand ≠ []
+    · rw [if_pos hz]
+    · rw [if_neg hz] at h; simp at h
+  | exit t c => exact absurd h (by simp [Mirp.step])
+  | entry l t c =>
+    rw [step_entry] at h ⊢
+    cases ha : m.addEntryArcs l t c with
+    | none => rfl
+    | some m' => rw [ha] at h; simp at h
+
 /-- one successful helper call keeps the invariant, the cargo size, and only a `port` call declares a port -/
 theorem step_inv {m : Mirp} (hinv : Inv m) (fuel : ℕ) (op : MOp)
     (hfresh : ∀ p ∈ portNames [op], p ∉ m.supply ∧ p ∉ m.demand) (names : List String)
@@ -485,10 +525,14 @@ theorem step_inv {m : Mirp} (hinv : Inv m) (fuel : ℕ) (op : MOp)
           · exact Or.inr (Or.inl h)
           · exact Or.inr (Or.inr (by simp [portNames, h]))
   | travel sp u dist sf df =>
-    exact ⟨addTravelArcs_inv hinv _ _ _ _ _, rfl, fun p hp => by
-      rcases hp with hp | hp
-      · exact Or.inl hp
-      · exact Or.inr (Or.inl hp)⟩
+    rw [step_travel] at hok ⊢
+    by_cases hz : sp = 0 ∧ m.supply ≠ [] ∧ m.demand ≠ []
+    · rw [if_pos hz] at hok; simp at hok
+    · rw [if_neg hz]
+      exact ⟨addTravelArcs_inv hinv _ _ _ _ _, rfl, fun p hp => by
+        rcases hp with hp | hp
+        · exact Or.inl hp
+        · exact Or.inr (Or.inl hp)⟩
   | exit t c =>
     exact ⟨addExitArcs_inv hinv _ _, rfl, fun p hp => by
       rcases hp with hp | hp
@@ -777,6 +821,10 @@ theorem arcs_monotone (fuel : ℕ) (m : Mirp) (op : MOp) (i j : ℕ)
         have : m'.g.hasArc i j = true := by unfold Graph.hasArc; rw [harcs]; exact h
         cases res <;> exact this
   | travel sp u dist sf df =>
+    rw [step_travel]
+    by_cases hz : sp = 0 ∧ m.supply ≠ [] ∧ m.demand ≠ []
+    · rw [if_pos hz]; exact h
+    rw [if_neg hz]
     show (m.addTravelArcs (lookupDist dist) sp u (lookupD sf) (lookupD df)).g.hasArc i j = true
     rw [addTravelArcs_eq]
     refine foldl_inv (fun g : Graph => g.hasArc i j = true) _ m.supply ?_ m.g h
@@ -969,5 +1017,32 @@ theorem travel_arc_data (m : Mirp) (hinv : Inv m) (hsize : m.size ≠ 0) (dist :
         rw [Graph.lo_congr hg1, Graph.hi_congr hg1]; exact ht
       rw [gAddArc_eq_of h1 h2 h3]
       exact dictGet_dictSet_self _ _ _
+
+/-! ## non-vacuity
+
+The theorems above speak about every *successful* build.  Here is one: cargo size 1, horizon 4, one supply
+port `S` (rate 1) and one demand port `D` (rate −1) with three visits each, `add_travel_arcs` with vessel
+speed 1, `add_exit_arcs`, `add_entry_arcs` (one dummy pre-loaded vessel `Dum0`).  The build is evaluated by
+the kernel; it succeeds, has 8 nodes, contains the travel arcs `S-0 → D-0` (positions `1 → 4`) and
+`D-0 → S-0`, and satisfies the invariant by `build_inv`. -/
+example : ∃ m, Mirp.build 10 (Mirp.new 1 4)
+      [.port "S" 0 1 2, .port "D" 2 (-1) 2,
+       .travel 1 1 [("S", "D", 1)] [("S", 3)] [("D", 5)], .exit 1 0, .entry 3 0 0] = some m ∧
+    m.g.nodes.length = 8 ∧ m.g.hasArc 1 4 = true ∧ m.g.hasArc 4 1 = true ∧ Inv m ∧ m.size = 1 := by
+  have h : (Mirp.build 10 (Mirp.new 1 4)
+      [.port "S" 0 1 2, .port "D" 2 (-1) 2,
+       .travel 1 1 [("S", "D", 1)] [("S", 3)] [("D", 5)], .exit 1 0, .entry 3 0 0]).map
+      (fun m => (m.g.nodes.length, m.g.hasArc 1 4, m.g.hasArc 4 1)) = some (8, true, true) := by
+    decide +kernel
+  obtain ⟨m, hm, hv⟩ := Option.map_eq_some_iff.mp h
+  simp only [Prod.mk.injEq] at hv
+  have hI := build_inv 10 1 4 (by decide) _ (by decide) m hm
+  exact ⟨m, hm, hv.1, hv.2.1, hv.2.2, hI.1, hI.2⟩
+
+/-- the same build with vessel speed 0 is rejected (`ZeroDivisionError` in the code) -/
+example : Mirp.build 10 (Mirp.new 1 4)
+      [.port "S" 0 1 2, .port "D" 2 (-1) 2,
+       .travel 0 1 [("S", "D", 1)] [("S", 3)] [("D", 5)], .exit 1 0, .entry 3 0 0] = none := by
+  decide +kernel
 
 end Vrp.C12
